@@ -11,8 +11,9 @@ for d in sorted(glob.glob(os.path.join(V, "seeded", "*"))):
         continue
     meta = json.load(open(os.path.join(d, "meta.json")))
     props = meta.get("check_properties") or [meta["property"]]
-    subprocess.run(["git", "-C", "/repo", "checkout", "--", "."])
-    r = subprocess.run(["git", "-C", "/repo", "apply", os.path.join(d, "patch.diff")], capture_output=True, text=True)
+    REPO = os.environ.get("VERIF_REPO", "/repo")
+    subprocess.run(["git", "-C", REPO, "checkout", "--", "."])
+    r = subprocess.run(["git", "-C", REPO, "apply", os.path.join(d, "patch.diff")], capture_output=True, text=True)
     if r.returncode != 0:
         rows.append((name, "PATCH DOES NOT APPLY", r.stderr[:100]))
         continue
@@ -23,6 +24,6 @@ for d in sorted(glob.glob(os.path.join(V, "seeded", "*"))):
             vio = [l for l in c.stdout.split("\n") if l.startswith("VIOLATION")]
             rows.append((name, p, "caught" if c.returncode == 1 and vio else "MISSED", (vio[0] if vio else c.stdout.strip().split("\n")[-1])[:140]))
     finally:
-        subprocess.run(["git", "-C", "/repo", "checkout", "--", "."])
+        subprocess.run(["git", "-C", REPO, "checkout", "--", "."])
 for r in rows:
     print(" | ".join(r))
